@@ -174,26 +174,23 @@ pub fn values(s: &S, env: &Env, level: usize, depth: usize) -> Vec<V> {
             Lt::TimeMicros | Lt::TsMillis | Lt::TsMicros | Lt::TsNanos | Lt::LtsMillis | Lt::LtsMicros | Lt::LtsNanos => {
                 values(&S::Long, env, level, depth)
             }
-            Lt::Decimal { .. } => {
+            Lt::Decimal { precision, .. } => {
+                // conforming values have at most `precision` decimal digits (and fit the fixed width)
                 let width: Option<usize> = match &**base {
                     S::Fixed { size, .. } => Some(*size),
                     _ => None,
                 };
-                let mut all: Vec<BigInt> = [0i64, 1, -1, 127, 128, 129, -127, -128, -129, 32767, -32768, 32768]
+                let maxp: BigInt = BigInt::from(10).pow(*precision as u32) - BigInt::from(1);
+                let mut all: Vec<BigInt> = [0i64, 1, -1, 127, 128, 129, -127, -128, -129, 255, 256, -255, -256, 32767, -32768, 32768, -32769]
                     .iter()
                     .map(|&x| BigInt::from(x))
                     .collect();
-                match width {
-                    Some(w) => {
-                        let bits = (8 * w) as u32;
-                        all.retain(|x| *x >= -two_pow(bits - 1) && *x < two_pow(bits - 1));
-                        all.push(two_pow(bits - 1) - 1);
-                        all.push(-two_pow(bits - 1));
-                    }
-                    None => {
-                        all.push(two_pow(70));
-                        all.push(-two_pow(70) - 1);
-                    }
+                all.push(maxp.clone());
+                all.push(-maxp.clone());
+                all.retain(|x| *x >= -maxp.clone() && *x <= maxp);
+                if let Some(w) = width {
+                    let bits = (8 * w) as u32;
+                    all.retain(|x| *x >= -two_pow(bits - 1) && *x < two_pow(bits - 1));
                 }
                 all.dedup();
                 let n = all.len();
